@@ -164,7 +164,9 @@ class Check:
             json.dump(ev, f, indent=1, sort_keys=True, default=str)
         os.replace(tmp, os.path.join(EVIDENCE_DIR, "%s.json" % self.pid))
         for cls, n in sorted(acc.known_hits.items()):
-            print("KNOWN-FINDING: property=%s %s" % (self.pid, KNOWN.text(self.pid, cls) or cls))
+            txt = KNOWN.text(self.pid, cls) or cls
+            txt = " ".join(t for t in txt.split() if not t.startswith("property="))
+            print("KNOWN-FINDING: property=%s %s" % (self.pid, txt))
         rc = 0
         for v in acc.violations:
             path = self.write_replay(v)
